@@ -64,5 +64,4 @@ func abiSkipLiteral(f *ast.File, fn string) string {
 	return lit
 }
 
-
 func readFile(path string) ([]byte, error) { return os.ReadFile(path) }
